@@ -34,7 +34,7 @@ static void c02_run(void) {
 	g.opmask |= (1u << OP_BARRIER_AAW);
 	g.min_clients = 2; g.max_clients = 4; g.min_ops = 3; g.max_ops = (RC.cfg & CFG_THOROUGH) ? 12 : 8;
 	g.nest_pct = 15;
-	if (g_chance(1, 4)) { g.use_main = 1; g.qkindmask = 1u << QK_MAIN; }
+	if (g_chance(1, 4)) { g.use_main = 1; g.qkindmask = 1u << QK_MAIN; g.dispatch_main = g_chance(1, 2); }
 	else if (g_chance(1, 3)) { g.max_queues = 3; g.qkindmask |= 1u << QK_GLOBAL; g.single_queue = 0; }
 	qprog_run(&g);
 }
